@@ -1217,6 +1217,10 @@ func runByzCase(r *mon.Run, cc c11Case) {
 	for _, p := range v.S.Peers() {
 		peersNow = append(peersNow, fmt.Sprintf("%s synced=%v err=%v", p.Addr(), p.Synced(), p.Err()))
 	}
+	v1Unpropagated := false
+	if withH && !reached {
+		v1Unpropagated = stuckOnUnpropagatedV1Tip(v.Mon.Tip(), sc.hTip, peerViews(v, map[string]*p2plab.Node{h.Addr: h}))
+	}
 	for _, b := range byz {
 		b.Close()
 	}
@@ -1285,6 +1289,11 @@ func runByzCase(r *mon.Run, cc c11Case) {
 			}
 		} else {
 			sig := "stall:" + key + ":" + cc.Regime
+			if v1Unpropagated && !honestBanned {
+				// structural: v1-only gap, every peer of the victim marked synced
+				// without error, the honest peer exactly one v1 block ahead
+				sig = "stall:v1-tip-not-propagated-to-synced-peer"
+			}
 			if honestBanned {
 				cls := map[string]bool{}
 				for _, hb := range honestBans {
